@@ -413,15 +413,15 @@ fn part_layouts(shard: &Shard, journal: &Journal, rep: &mut Report) {
 // ---------------------------------------------------------------------------------------------
 // graphs
 
-const GFILES: [&str; 3] = ["m", "a", "b"];
+pub const GFILES: [&str; 3] = ["m", "a", "b"];
 /// edge sources x targets: (from, to) for from in m,a,b and to in a,b
-const EDGES: [(usize, usize); 6] = [(0, 1), (0, 2), (1, 1), (1, 2), (2, 1), (2, 2)];
-const E_NONE: u8 = 0;
-const E_STRICT: u8 = 1;
-const E_LAZY_READ: u8 = 2;
-const E_LAZY_UNREAD: u8 = 3;
-const E_STR: u8 = 4;
-const E_BIN: u8 = 5;
+pub const EDGES: [(usize, usize); 6] = [(0, 1), (0, 2), (1, 1), (1, 2), (2, 1), (2, 2)];
+pub const E_NONE: u8 = 0;
+pub const E_STRICT: u8 = 1;
+pub const E_LAZY_READ: u8 = 2;
+pub const E_LAZY_UNREAD: u8 = 3;
+pub const E_STR: u8 = 4;
+pub const E_BIN: u8 = 5;
 const EDGE_NAMES: [&str; 6] = ["-", "strict", "lazy-read", "lazy-unread", "importstr", "importbin"];
 
 /// how file `from` spells the path of file `to` (all spellings denote main/<to>.libsonnet)
@@ -436,7 +436,7 @@ fn spelling(from: usize, to: usize, opt: u8) -> String {
 	}
 }
 
-fn graph_file(from: usize, edges: &[u8]) -> Ex {
+pub fn graph_file(from: usize, edges: &[u8]) -> Ex {
 	let name = GFILES[from];
 	let mut binds = Vec::new();
 	let mut asserts: Vec<Ex> = Vec::new();
@@ -470,7 +470,7 @@ fn graph_file(from: usize, edges: &[u8]) -> Ex {
 	stdcall("trace", vec![s(&format!("EVAL:{name}")), body])
 }
 
-fn graph_describe(edges: &[u8]) -> String {
+pub fn graph_describe(edges: &[u8]) -> String {
 	EDGES.iter().enumerate().filter(|(i, _)| edges[*i] != E_NONE).map(|(i, (f, t))| format!("{}-{}->{}", GFILES[*f], EDGE_NAMES[edges[i] as usize], GFILES[*t])).collect::<Vec<_>>().join(" ")
 }
 
@@ -556,7 +556,7 @@ fn graph_case(tree: &Tree, edges: &[u8]) -> (Vec<Violation>, Out, Verdict) {
 	(vs, out, v)
 }
 
-fn setup_graph_tree(tree: &Tree) {
+pub fn setup_graph_tree(tree: &Tree) {
 	for t in ["a", "b"] {
 		let link = tree.p(&format!("main/ln_{t}.libsonnet"));
 		let _ = fs::remove_file(&link);
